@@ -62,7 +62,9 @@ Conds == << a1, a2, a3, a4, a5, a6, a7, a8, a9, a10, a11, a12, a13,
             Not(And(<<a1, a2>>)), And(<<Not(a1), a2>>), Or(<<Not(a3), And(<<a4, a5>>)>>),
             Or(<<And(<<a1, Or(<<a2, a3>>)>>), Not(Or(<<a4, a5>>))>>),
             And(<<Or(<<And(<<a1, a2>>), a3>>), Or(<<a4, Not(a5)>>)>>),
-            And(<<a6, a2>>), Or(<<a10, a1>>), And(<<a1, a7>>), And(<<a12, a1>>) >>
+            And(<<a6, a2>>), Or(<<a10, a1>>), And(<<a1, a7>>), And(<<a12, a1>>),
+            And(<<Not(a1), Or(<<a2, a3>>)>>), Or(<<Not(a1), Not(a2)>>), And(<<Not(Or(<<a1, a2>>)), Not(a3)>>), Or(<<Not(a1), And(<<a2, Or(<<a3, a4>>)>>)>>),
+            Not(Not(a1)), And(<<Or(<<a1, a2>>), Or(<<a3, a4>>)>>), Or(<<And(<<a1, a2>>), And(<<a3, a4>>)>>) >>
 
 (* actions: <<tokens (without the terminating ";"), AST>> *)
 Set(f, v) == [toks |-> <<f, "=", v[1]>>, ast |-> <<"set", f, <<v[2], v[3]>> >>]
